@@ -2,6 +2,7 @@ package props
 
 import (
 	"fmt"
+	"os"
 	"sync"
 	"sync/atomic"
 	"testing"
@@ -75,7 +76,15 @@ func runC13S(c c13sCase) (o outcome) {
 		OnDeletion: func(e otter.DeletionEvent[int, int]) {
 			mu.Lock()
 			reported[e.Value]++
+			if os.Getenv("VERIF_DEBUG") != "" {
+				fmt.Printf("DEBUG OnDeletion %+v at clock %d\n", e, clock.Now())
+			}
 			mu.Unlock()
+		},
+		OnAtomicDeletion: func(e otter.DeletionEvent[int, int]) {
+			if os.Getenv("VERIF_DEBUG") != "" {
+				fmt.Printf("DEBUG OnAtomicDeletion %+v at clock %d\n", e, clock.Now())
+			}
 		},
 	}
 	if c.Bounded {
@@ -138,6 +147,9 @@ func runC13S(c c13sCase) (o outcome) {
 		return o
 	}
 	s.Close() // from here on the main goroutine calls the cache directly
+	if os.Getenv("VERIF_DEBUG") != "" {
+		fmt.Printf("DEBUG trace %v\nDEBUG installed %v\n", s.Trace, installed)
+	}
 	tail := s.Trace
 	if len(tail) > 50 {
 		tail = tail[len(tail)-50:]
